@@ -280,6 +280,12 @@ class ScriptGen:
                 else:
                     mm = Call("<builtin>matmul", [x], [("b_cols", Const(bc)), ("b", y), ("a_cols", Const(ac))])
                 return Call("<builtin>norm_1", [mm])
+            if t.chance(0.2, "dot"):
+                n = self.types[a][1]
+                b = self.pick(self.arrs(D, n), "dotb")
+                if F.kwargs and t.chance(0.4, "dotkw"):
+                    return Call("<builtin>dot_product", [], [("y", Var(b)), ("x", Var(a))])
+                return Call("<builtin>dot_product", [Var(a), Var(b)])
             fn = self.pick(["<builtin>len", "<builtin>norm_inf", "<builtin>norm_1", "<builtin>norm_2"], "bfn")
             if F.kwargs and t.chance(0.3, "bkw"):
                 return Call(fn, [], [("x", Var(a))])
@@ -393,6 +399,12 @@ class ScriptGen:
             fn = self.pick(["<func>h", "<func>rev"], "afn")
             return self.ucall(fn, [self._arr_leaf_or(D, n, depth - 1)])
         if k == 5:
+            if n in (2, 4) and t.chance(0.4, "transpose"):
+                cols = Const(self.pick([1, 2] if n == 2 else [1, 2, 4], "tcols"))
+                x = self._arr_leaf_or(D, n, depth - 1)
+                if F.kwargs and t.chance(0.5, "tkw"):
+                    return Call("<builtin>transpose", [x], [("a_cols", cols)])
+                return Call("<builtin>transpose", [x, cols])
             return Call("<builtin>elementwise_abs", [self._arr_leaf_or(D, n, depth - 1)])
         if k == 6:
             return IfX(self.g_bool(D, 0),
